@@ -35,6 +35,22 @@ def main():
         print(f"passed={len(passed)} (no BASELINE.json to compare)")
         return 0
     missing = sorted(want - passed)
+    if missing and len(missing) <= 6:
+        # a few stable tests draw unseeded random matrices (pytest-randomly reseeds every run) and fail now and then on
+        # the pinned tree as well: re-run exactly the missing ones before reporting them
+        ids = [m.replace(".", "/", 2).replace("::", ".py::", 1) if False else m for m in missing]
+        node_ids = []
+        for m in missing:
+            mod, name = m.split("::", 1)
+            node_ids.append(mod.replace(".", "/") + ".py::" + name)
+        for _ in range(2):
+            r2 = subprocess.run(["/venv/bin/python", "-m", "pytest", "-q", "-p", "no:cacheprovider", "-o", "addopts=", "--timeout=900", *node_ids],
+                                cwd=a.repo, env=env, stdout=subprocess.PIPE, stderr=subprocess.STDOUT, text=True)
+            if r2.returncode == 0:
+                print(f"(re-run of {len(missing)} randomly seeded test(s) passed: {', '.join(missing)})")
+                passed |= set(missing)
+                missing = []
+                break
     print(f"stable_pass={len(want)} passing_now={len(want & passed)} extra_passing={len(passed - want)}")
     for m in missing:
         print("MISSING", m)
